@@ -63,7 +63,11 @@ class World:
 
     # ---- helpers
     def pick(self, i):
-        return self.objs[i % len(self.objs)] if self.objs else None
+        # indices 6 and 7 address the most recently produced object, so that chains of operations on one object
+        # (derive -> resize -> write ...) are generated often; the others address the pool modulo its size
+        if not self.objs:
+            return None
+        return self.objs[-1] if i % 8 >= 6 else self.objs[i % len(self.objs)]
 
     def adopt(self, z, modes=None):
         """Add an object produced by the library to the pool, reading its state once."""
